@@ -292,7 +292,7 @@ func genInstTraceOpt(r *rng, viol func(clause, sig, detail string), io instOpts)
 
 func runInstTraces(o *out, r *rng, thorough bool, pid string) {
 	o.Rule = "event traces of ONE real gpbft.Participant driven through a deterministic Host (scripted signatures, integer timeouts, jitter 0): puppets holding >= 2/3 of the power send VALID messages of every step for the current / previous / next / far-future rounds (cooperative, mixed and hostile mixes: equivocation across puppets, foreign chains, bottom commits, late and duplicate messages, own messages looped back at arbitrary times), alarms fire at or after their time; after every event (round, step), every broadcast (round, step, value, justification, ticket), rebroadcast request, alarm and decision is compared with the Layer-N model inside Coq; non-trivial = the participant left round 0 or received a conflicting value, and emitted >= 1 vote after the first delivery"
-	n := 120
+	n := 240
 	if thorough {
 		n = 2500
 	}
@@ -325,7 +325,7 @@ func runInstTraces(o *out, r *rng, thorough bool, pid string) {
 
 // multi-node adversarial executions of real participants (netsim), monitors with the given prefix only
 func runNetMonitors(o *out, r *rng, thorough bool, prefix string) {
-	runs := 25
+	runs := 40
 	if thorough {
 		runs = 400
 	}
